@@ -37,8 +37,8 @@ COMMON_ASSUMPTIONS = [
 
 # The configurations every functional property runs in its quick tier: the default build (AVX2 dispatch), the serial
 # algorithms inside that build, the 32-bit backend with and without precomputed tables (the tables-off code paths are
-# different code), and the IFMA build.  Earlier seeds showed that any of these left out of a quick tier is a blind spot.
-QSET = [R("simd"), R("simd", dispatch="serial"), R("serial32"), R("serial32", "rel-notables"), R("avx512")]
+# different code), the IFMA build and the fiat 64-bit build (its own field wrappers).  Earlier seeds showed that any of these left out of a quick tier is a blind spot.
+QSET = [R("simd"), R("simd", dispatch="serial"), R("serial32"), R("serial32", "rel-notables"), R("avx512"), R("fiat64")]
 
 
 
